@@ -76,6 +76,15 @@ def prior_content(rng, st, which):
         # before nor after annotate, and annotate's header must end up where the linter reads it
         blk = trees.comment_block(st, ["REUSE-IgnoreStart", "SPDX-License-Identifier: GPL-3.0-only", "SPDX-FileCopyrightText: 1999 Ignored Person",
                                        "REUSE-IgnoreEnd"], multi=rng.random() < 0.3)
+        if which == "ignoreblock2":
+            # an earlier block that is closed again does not make later blocks any less ignored
+            first = trees.comment_block(st, ["REUSE-IgnoreStart", "just words", "REUSE-IgnoreEnd"])
+            return first + "\n\nK0 code\n\n" + blk + "\n\nK1 code\n", set(), set()
+        if which == "ignoreblock-endstart":
+            # one line closes a block and opens the next
+            both = trees.comment_block(st, ["REUSE-IgnoreStart", "just words", "REUSE-IgnoreEnd REUSE-IgnoreStart", "SPDX-License-Identifier: GPL-3.0-only",
+                                            "SPDX-FileCopyrightText: 1999 Ignored Person", "REUSE-IgnoreEnd"])
+            return both + "\n\nK1 code\n", set(), set()
         if which == "ignoreblock":
             return blk + "\n\nK1 code\n", set(), set()
         if which == "ignoreblock+own":
@@ -94,14 +103,14 @@ def one(res, ctx, root, rng, t, forced_style, idx, sample=False):
     f = d / fname
     binary = t is not None and rng.random() < 0.08
     uncomm = t is not None and (t["uncommentable"] or t["empty"])
-    which = rng.choice(["empty", "code", "foreign", "own", "own", "longcr", "ignoreblock", "ignoreblock+own", "own+ignoreblock"]) if st is not None and not uncomm else rng.choice(["empty", "code"])
+    which = rng.choice(["empty", "code", "foreign", "own", "own", "longcr", "ignoreblock", "ignoreblock+own", "own+ignoreblock", "ignoreblock2", "ignoreblock-endstart"]) if st is not None and not uncomm else rng.choice(["empty", "code"])
     if binary:
         f.write_bytes(trees.BINARY_BLOB)
         prev_c, prev_l = set(), set()
     else:
         body, prev_c, prev_l = prior_content(rng, st, which) if st else (rng.choice(["", "K1 code\n"]), set(), set())
-        if (uncomm or t is None and not forced_style) and which in ("foreign", "own", "ignoreblock", "ignoreblock+own", "own+ignoreblock"):
-            body, prev_c, prev_l = "K1 code\n", set(), set()
+        if (uncomm or t is None and not forced_style) and (which in ("foreign", "own") or which.startswith(("ignoreblock", "own+"))):
+            body, prev_c, prev_l, which = "K1 code\n", set(), set(), "code"
         with open(f, "w", encoding="utf-8", newline="") as fp:
             fp.write(body)
     empty_body = (not binary) and f.stat().st_size == 0
@@ -234,6 +243,7 @@ def one(res, ctx, root, rng, t, forced_style, idx, sample=False):
     if which != "empty" or len(args) > 4:
         res.sigs.add(short_hash(sorted((k, str(v)) for k, v in desc.items()), holders, lics))
     res.cell("style:" + str(short))
+    res.cell("content:" + ("binary" if binary else which))
     res.cell("mode:" + str(mode))
     res.cell("template:" + str(template))
     res.cell("prefix:" + str(prefix))
@@ -268,6 +278,16 @@ def multi(res, ctx, root, rng, idx):
                 pc, pl = {f"SPDX-FileCopyrightText: 20{10 + j} Sidecar Holder {j}"}, {"Unlicense"}
                 (d / (name + ".license")).write_text("\n".join(sorted(pc)) + "\nSPDX-License-Identifier: Unlicense\n")
         files.append((f, prior, pc, pl))
+    # files whose header can only go to FILE.license (binary by content, a type that cannot carry comments) ride along: what is
+    # decided for them holds for them alone
+    for name in rng.sample(["data.csv", "logo.png", "table.json"], rng.choice([0, 1, 1, 2])):
+        f = d / name
+        if name.endswith(".png"):
+            f.write_bytes(trees.BINARY_BLOB)
+        else:
+            f.write_text('{"a": 1}\n' if name.endswith(".json") else "a,b\n1,2\n")
+        files.append((f, "none", set(), set()))
+        res.cell("multi:with-dot-license-only-files")
     holder = rng.choice(PLAIN_HOLDERS)
     lic = rng.choice(LICS)
     recursive = rng.random() < 0.5
@@ -310,6 +330,10 @@ def multi(res, ctx, root, rng, idx):
             return
         want_c = set(pc) | {notice.build("spdx", "2022", holder)}
         want_l = set(pl) | {lic}
+        if prior == "header" and os.path.exists(str(f) + ".license"):
+            res.violation("multi-file:dot-license-created-for-a-file-with-a-header", f"{rel}: FILE.license appeared next to a commentable file that "
+                          f"carries its own header ({desc})")
+            return
         if got["cop"] != want_c or got["lic"] != want_l:
             key = "multi-file:information-leaks-between-files" if (got["cop"] - want_c or got["lic"] - want_l) else \
                 ("multi-file:header-not-where-the-linter-reads" if prior == "sidecar" else "multi-file:read-back-differs")
@@ -350,3 +374,14 @@ def run_case(case, ctx):
     finally:
         shutil.rmtree(root, ignore_errors=True)
     return res.out()
+
+
+NEEDED_CELLS = ["content:own", "content:foreign", "content:longcr", "content:ignoreblock", "content:ignoreblock+own", "content:own+ignoreblock",
+                "content:ignoreblock2", "content:ignoreblock-endstart", "content:binary", "multi:with-files-that-cannot-be-annotated",
+                "template:custom-html", "template:nocontrib", "multi:with-dot-license-only-files"]
+
+
+def inconclusive_reasons(counters, finish, feats, tier):
+    # a class that silently stopped being generated must not pass for "held"
+    missing = [c for c in NEEDED_CELLS if not feats.get(c)]
+    return [f"input classes never exercised: {missing}"] if missing else []
